@@ -1,5 +1,160 @@
-(* C04 — placeholder while the proofs are being written *)
-From WK Require Import Base.Base Model.ReplicaLog Model.QuorumLog Model.Cluster Model.Monitor_C04.
+(* C04 — A deposed or fenced authority cannot acknowledge appends.
+   Statements only; every proof is [exact] of a lemma of Proof/QuorumLog_C04.v.
+
+   Install / Commit are the transcriptions of quorumLog.Install / quorumLog.Commit
+   (Model/QuorumLog.v).  Every theorem quantifies over an arbitrary network [n]
+   (replica contents, nodes down, fault plan of the call) and an arbitrary owner state, hence
+   over every outcome of recovery, repair, barrier and durability rounds, and — because the
+   per-channel mutex makes whole calls atomic — over every interleaving of Install and Commit. *)
+From WK Require Import Base.Base.
+From WK Require Import Model.ReplicaLog Model.QuorumLog Model.Cluster Model.Monitor_C04 Proof.QuorumLog_C04.
 Open Scope N_scope.
-Example c04_placeholder : c04_holds [] = true.
-Proof. reflexivity. Qed.
+
+(* compareAuthorityID is the lexicographic order on (epoch, term, fence); the probes printed by
+   the compiled code agree with it *)
+Theorem c04_compare_is_lexicographic : forall a b,
+  (compareAuthorityID a b = Lt <-> aid_lt a b) /\ (compareAuthorityID a b = Eq <-> a = b) /\
+  (compareAuthorityID a b = Gt <-> aid_lt b a).
+Proof. exact (fun a b => conj (compare_Lt a b) (conj (compare_Eq a b) (compare_Gt a b))). Qed.
+Print Assumptions c04_compare_is_lexicographic.
+
+Theorem c04_compare_matches_code :
+  compareAuthorityID (2, 2, 2) (3, 1, 1) = Lt /\ cmp_epoch_lt_term_gt = (-1)%Z /\
+  compareAuthorityID (2, 2, 2) (2, 3, 1) = Lt /\ cmp_term_lt_fence_gt = (-1)%Z /\
+  compareAuthorityID (2, 2, 2) (2, 2, 1) = Gt /\ cmp_fence_gt = 1%Z /\
+  compareAuthorityID (2, 2, 2) (2, 2, 2) = Eq /\ cmp_equal = 0%Z.
+Proof. exact compare_probes_match_code. Qed.
+Print Assumptions c04_compare_matches_code.
+
+(* the authority an owner runs under never decreases, whatever Install returns *)
+Theorem c04_authority_monotone : forall cfg n st local a n' st' r,
+  Install cfg n st local a = (n', st', r) -> auth_le (qc_auth st) (qc_auth st').
+Proof. exact Install_authority_monotone. Qed.
+Print Assumptions c04_authority_monotone.
+
+(* Commit never changes the authority or the readiness of the owner *)
+Theorem c04_commit_keeps_authority : forall cfg n st local p n' st' r,
+  Commit cfg n st local p = (n', st', r) -> qc_auth st' = qc_auth st /\ qc_ready st' = qc_ready st.
+Proof. exact Commit_keeps_admission. Qed.
+Print Assumptions c04_commit_keeps_authority.
+
+(* an older authority can never be installed again: the call is refused (ErrStaleMeta, or
+   ErrInvalidConfig for a malformed request) and neither the owner nor any replica changes *)
+Theorem c04_older_install_rejected : forall cfg n st local a cur n' st' r,
+  qc_auth st = Some cur -> aid_lt (a_id a) (a_id cur) ->
+  Install cfg n st local a = (n', st', r) ->
+  n' = n /\ st' = st /\ (r = IErr EStale \/ r = IErr EInvalid).
+Proof. exact Install_older_rejected. Qed.
+Print Assumptions c04_older_install_rejected.
+
+(* a successful Install returns the requested authority, unfenced and not older than the
+   previous one, and leaves the owner ready under exactly that authority *)
+Theorem c04_install_ok_exact : forall cfg n st local a n' st' x leo hw,
+  Install cfg n st local a = (n', st', IOk x leo hw) ->
+  x = a_id a /\ a_wf a = false /\ qc_ready st' = true /\
+  (exists b, qc_auth st' = Some b /\ a_id b = a_id a /\ a_wf b = false) /\
+  (forall cur, qc_auth st = Some cur -> aid_le (a_id cur) (a_id a)).
+Proof. exact Install_ok. Qed.
+Print Assumptions c04_install_ok_exact.
+
+(* a higher authority fences the owner even when its Install fails afterwards (recovery,
+   repair or barrier error): the owner then sits under the new authority, not ready *)
+Theorem c04_failed_higher_install_still_fences : forall cfg n st local a n' st' e,
+  (forall cur, qc_auth st = Some cur -> aid_lt (a_id cur) (a_id a)) ->
+  Install cfg n st local a = (n', st', IErr e) ->
+  (st' = st /\ n' = n /\ e = EInvalid) \/ (qc_auth st' = Some a /\ qc_ready st' = false).
+Proof. exact Install_failed_higher_fences. Qed.
+Print Assumptions c04_failed_higher_install_still_fences.
+
+(* appends proposed under any authority other than the installed one, under a fenced authority,
+   or to an owner that is not ready are rejected; nothing is written anywhere *)
+Theorem c04_stale_commit_rejected : forall cfg n st local p a n' st' r,
+  qc_auth st = Some a -> (pr_expected p <> a_id a \/ a_wf a = true \/ qc_ready st = false) ->
+  Commit cfg n st local p = (n', st', r) ->
+  n' = n /\ st' = st /\
+  (r = CErr EInvalid \/ r = CErr ENotReady \/ r = CErr EStale \/ r = CErr EFenced).
+Proof. exact Commit_stale_rejected. Qed.
+Print Assumptions c04_stale_commit_rejected.
+
+(* a receipt is issued only by a ready owner and carries its installed, unfenced authority,
+   which is the authority the proposal expected *)
+Theorem c04_receipt_authority : forall cfg n st local p n' st' rc,
+  owner_inv st -> Commit cfg n st local p = (n', st', COk rc) ->
+  qc_ready st = true /\ exists a, qc_auth st = Some a /\ a_wf a = false /\
+                                  pr_expected p = a_id a /\ rc_auth rc = a_id a.
+Proof. exact Commit_receipt_authority. Qed.
+Print Assumptions c04_receipt_authority.
+
+(* WriteFence.Set(): Install fails and touches no replica *)
+Theorem c04_fence_blocks_install : forall cfg n st local a n' st' r,
+  a_wf a = true -> Install cfg n st local a = (n', st', r) -> exists e, r = IErr e /\ n' = n.
+Proof. exact Install_fenced_fails. Qed.
+Print Assumptions c04_fence_blocks_install.
+
+(* the owner invariant (ready => unfenced authority; pending / retained work only on ready
+   owners; retained receipts carry the current authority) holds initially and is kept *)
+Theorem c04_owner_invariant :
+  owner_inv qchannel_empty /\
+  (forall cfg n st local a n' st' r, owner_inv st -> Install cfg n st local a = (n', st', r) -> owner_inv st') /\
+  (forall cfg n st local p n' st' r, owner_inv st -> Commit cfg n st local p = (n', st', r) -> owner_inv st').
+Proof. exact (conj owner_inv_empty (conj Install_preserves_inv Commit_preserves_inv)). Qed.
+Print Assumptions c04_owner_invariant.
+
+(* appends already admitted reach a terminal result: Commit is a total function whose only
+   loop, the completion loop of runDurableRound, never exhausts its fuel (more fuel gives the
+   same result), and a pending proposal exists only on a ready owner (so its retry is admitted
+   again, see c04_owner_invariant) *)
+Theorem c04_admitted_terminates : forall n local voters wq rot p k,
+  runDurableRound n local voters wq rot p =
+  (let fs := round_followers voters local rot in
+   let '(n1, o1) := submitLocal n local p in
+   let '(n2, queue) := submit_all n1 local p (firstn (N.to_nat (wq - 1)) fs) [(true, o1)] in
+   round_loop (S (S (length voters)) + k) n2 local wq p queue (skipn (N.to_nat (wq - 1)) fs)
+              false 0 ONotWritten false false).
+Proof. exact runDurableRound_fuel_sufficient. Qed.
+Print Assumptions c04_admitted_terminates.
+
+(* the monitor evaluated on implementation traces accepts every trace of the model: for every
+   configuration and every schedule of installs, commits, restarts, outages, repairs and
+   checkpoints, from the initial cluster *)
+Theorem c04_model_satisfies_monitor : forall cfg ops,
+  c04_holds (model_trace cfg (cluster_init cfg) ops) = true.
+Proof. exact model_satisfies_c04. Qed.
+Print Assumptions c04_model_satisfies_monitor.
+
+(* ---- non-vacuity -------------------------------------------------------------------------------- *)
+
+Definition c04_demo_cfg : qconfig := QCfg SMem 3 2 2 3 65536 0.
+Definition c04_demo_rec : record := Rec (TUser 7) 1 1 42 5 false 1.
+Definition c04_demo_ops : list qop :=
+  [ OInstall 1 (1, 1, 1) false 2 no_faults;
+    OCommit 1 (1, 1, 1) (TUser 1) [c04_demo_rec] false no_faults;
+    OInstall 1 (1, 2, 2) true 2 no_faults;                              (* higher, fenced *)
+    OCommit 1 (1, 1, 1) (TUser 2) [c04_demo_rec] false no_faults;       (* deposed authority *)
+    OInstall 1 (1, 1, 1) false 2 no_faults;                             (* older authority again *)
+    OInstall 1 (1, 2, 3) false 2 no_faults;                             (* fence cleared by a newer one *)
+    OCommit 1 (1, 2, 2) (TUser 3) [c04_demo_rec] false no_faults;
+    OCommit 1 (1, 2, 3) (TUser 3) [c04_demo_rec] false no_faults ].
+
+(* the model answers: installed, receipt 1..1, write fenced, not ready, stale meta,
+   installed (barrier at 2), stale meta, receipt 3..3 *)
+Example c04_demo_trace :
+  map snd (model_trace c04_demo_cfg (cluster_init c04_demo_cfg) c04_demo_ops) =
+  [ RInstalled (1, 1, 1) 0 0; RReceipt (1, 1, 1) (TUser 1) 1 1 1; RErr EFenced; RErr ENotReady; RErr EStale;
+    RInstalled (1, 2, 3) 2 2; RErr EStale; RReceipt (1, 2, 3) (TUser 3) 3 3 3 ].
+Proof. vm_compute. reflexivity. Qed.
+
+(* the monitor is not trivially true: a receipt under the deposed authority after the higher
+   install, or a successful install of the older authority, is flagged *)
+Example c04_monitor_rejects_deposed_receipt :
+  c04_holds [ (OInstall 1 (1, 1, 1) false 2 no_faults, RInstalled (1, 1, 1) 0 0);
+              (OInstall 1 (1, 2, 2) false 2 no_faults, RInstalled (1, 2, 2) 0 0);
+              (OCommit 1 (1, 1, 1) (TUser 1) [c04_demo_rec] false no_faults, RReceipt (1, 1, 1) (TUser 1) 1 1 1) ] = false
+  /\
+  c04_holds [ (OInstall 1 (1, 2, 2) false 2 no_faults, RInstalled (1, 2, 2) 0 0);
+              (OInstall 1 (1, 1, 1) false 2 no_faults, RInstalled (1, 1, 1) 0 0) ] = false
+  /\
+  c04_holds [ (OInstall 1 (1, 1, 1) false 2 no_faults, RInstalled (1, 1, 1) 0 0);
+              (OInstall 1 (1, 2, 2) true 2 no_faults, RErr EFenced);
+              (OCommit 1 (1, 1, 1) (TUser 1) [c04_demo_rec] false no_faults, RReceipt (1, 1, 1) (TUser 1) 1 1 1) ] = false.
+Proof. repeat split; vm_compute; reflexivity. Qed.
